@@ -460,7 +460,16 @@ func (g *c05Gram) data(k int) {
 	c := g.c
 	for i := 0; i < k; i++ {
 		s := c.c05Sep()
-		switch c.Rng.Intn(3) {
+		kind := c.Rng.Intn(3)
+		// unless out-of-range indices are wanted, make sure every pool has an entry early on
+		if g.oobRate == 0 && g.nv == 0 {
+			kind = 0
+		} else if g.oobRate == 0 && g.nt == 0 {
+			kind = 1
+		} else if g.oobRate == 0 && g.nn == 0 {
+			kind = 2
+		}
+		switch kind {
 		case 0:
 			l := "v" + s + c.c05Num() + s + c.c05Num() + s + c.c05Num()
 			if c.Rng.Intn(8) == 0 {
